@@ -251,3 +251,50 @@ VERIF_HARNESS(c10_l1_no_response) {
 #endif
   VERIF_REACH("L1 end");
 }
+
+/* ---- L1m: multicast suppression rules (RFC 7252 8.1 + libcoap per-resource flags), no No-Response option ------------------- */
+#include <netinet/in.h>
+#ifndef VERIF_REPLAY
+/* environment: interface enumeration (coap_is_bcast) finds no broadcast interface */
+#include <ifaddrs.h>
+int getifaddrs(struct ifaddrs **ifap) { *ifap = NULL; return 0; }
+void freeifaddrs(struct ifaddrs *ifa) { (void)ifa; }
+#endif
+VERIF_HARNESS(c10_l1_no_response_mcast) {
+  ne_init();
+  VERIF_IN(uint8_t, rcode);
+  VERIF_IN(uint8_t, per_resource);
+  VERIF_IN(uint8_t, has_resource);
+  VERIF_IN(uint16_t, flags);
+  VERIF_IN(uint8_t, has_data);
+  VERIF_IN(uint8_t, is_mcast);
+  VERIF_ASSUME(per_resource <= 1 && has_resource <= 1 && has_data <= 1 && is_mcast <= 1);
+  static coap_resource_t resm;
+  memset(&resm, 0, sizeof(resm));
+  resm.flags = flags;
+  ne_ctx.mcast_per_resource = per_resource;
+  memset(&ne_sess.addr_info, 0, sizeof(ne_sess.addr_info));
+  ne_sess.addr_info.local.size = sizeof(struct sockaddr_in);
+  ne_sess.addr_info.local.addr.sin.sin_family = AF_INET;
+  ne_sess.addr_info.local.addr.sin.sin_addr.s_addr = is_mcast ? htonl(0xE00001BBu) /* 224.0.1.187 */ : htonl(0x0A000001u);
+  coap_pdu_t *req = coap_pdu_init(COAP_MESSAGE_NON, 1, 7, 64);
+  coap_pdu_t *resp = coap_pdu_init(COAP_MESSAGE_NON, rcode, 7, 64);
+  if (has_data) coap_add_data(resp, 1, (const uint8_t *)"x");
+  int r = __CPROVER_file_local_coap_net_c_no_response(req, resp, &ne_sess, has_resource ? &resm : NULL);
+  unsigned cls = rcode >> 5;
+  if (cls >= 1) {
+    int drop;
+    if (!is_mcast) drop = 0;
+    else if (!has_resource || !per_resource) drop = cls > 2;                           /* RFC 7252 8.1: no error responses to multicast requests */
+    else if (cls == 2) drop = (flags & COAP_RESOURCE_FLAGS_LIB_ENA_MCAST_SUPPRESS_2_XX) ||
+                              ((flags & COAP_RESOURCE_FLAGS_LIB_ENA_MCAST_SUPPRESS_2_05) && rcode == COAP_RESPONSE_CODE(205) && !has_data);
+    else if (cls == 4) drop = !(flags & COAP_RESOURCE_FLAGS_LIB_DIS_MCAST_SUPPRESS_4_XX);
+    else if (cls == 5) drop = !(flags & COAP_RESOURCE_FLAGS_LIB_DIS_MCAST_SUPPRESS_5_XX);
+    else drop = 0;
+    if (drop) VERIF_ASSERT(r == 1 /* DROP */, "L1m a response the multicast rules suppress (RFC 7252 8.1 / the resource's own suppression flags) is dropped");
+    else VERIF_ASSERT(r == 0 /* DEFAULT */ && resp->code == rcode, "L1m a response the multicast rules allow is sent; each per-resource flag governs exactly its own class");
+  }
+#ifdef WITNESS
+  if (is_mcast && has_resource && per_resource && cls == 5 && (flags & COAP_RESOURCE_FLAGS_LIB_DIS_MCAST_SUPPRESS_5_XX) && !(flags & COAP_RESOURCE_FLAGS_LIB_DIS_MCAST_SUPPRESS_4_XX)) VERIF_REACH("L1m 5.xx allowed by its own flag");
+#endif
+}
